@@ -122,9 +122,36 @@ func genWrap(t *rapid.T) Hist {
 	return hst
 }
 
+// genSplit: several sessions of one consumer stay open while the record of one of them is split, then the same
+// consumer opens another session (whatever numbers records carry, the new reference must be a new one).
+func genSplit(t *rapid.T) Hist {
+	hst := Hist{Seq: uint64(rapid.IntRange(0, 12).Draw(t, "seq0"))}
+	hst.Subs = []Sub{{Acct: [3]Acct{{1, 100000}, {1, 100000}, {1, 100000}}}}
+	name := rapid.SampledFrom([]string{"smf", "", "s1", "1"}).Draw(t, "name")
+	mk := func() Op { return Op{K: "create", S: 0, Name: name, UUs: []UU{{RG: 1, Req: 10}}} }
+	n := rapid.IntRange(2, 4).Draw(t, "open")
+	for i := 0; i < n; i++ {
+		hst.Ops = append(hst.Ops, mk())
+	}
+	which := rapid.IntRange(0, n-1).Draw(t, "splitSession")
+	for i := 0; i < rapid.IntRange(2, 3).Draw(t, "bulkUpdates"); i++ {
+		hst.Ops = append(hst.Ops, Op{K: "update", S: 0, Sess: which, UUs: []UU{{RG: 1, Req: 10, Jumbo: 2000, Conts: []Cont{{Q: "offline", Tot: 1, Pm: -1}}}}})
+	}
+	if rapid.Bool().Draw(t, "releaseOne") {
+		hst.Ops = append(hst.Ops, Op{K: "release", S: 0, Sess: rapid.IntRange(0, n-1).Draw(t, "released"), UUs: []UU{{RG: 1, Req: 0}}, Trig: "FINAL"})
+	}
+	for i := 0; i < rapid.IntRange(1, 3).Draw(t, "creates"); i++ {
+		hst.Ops = append(hst.Ops, mk())
+	}
+	return hst
+}
+
 func genC10(t *rapid.T) Hist {
 	if rapid.IntRange(0, 7).Draw(t, "wrap") == 0 {
 		return genWrap(t)
+	}
+	if rapid.IntRange(0, 7).Draw(t, "split") == 0 {
+		return genSplit(t)
 	}
 	var hst Hist
 	hst.Seq = rapid.SampledFrom([]uint64{0, 8, 9, 10, 98, 99, 109, 110, 1, 11, 12}).Draw(t, "seq")
